@@ -31,6 +31,7 @@ type Contract struct {
 	Results   []string
 	Serves    []string
 	Requires  []Clause
+	Assumes   []Clause
 	Ensures   []Clause
 	Modifies  []*Expr // nil slice + ModAny => anything
 	ModAny    bool    // no modifies clause given
@@ -202,6 +203,17 @@ func (ss *SpecSet) readSpecFile(path, pkg string) error {
 			if cur != nil {
 				cur.Touches = strings.Fields(rest)
 			}
+		case "assumes":
+			// an explicit, listed assumption about the function's inputs that is
+			// NOT checked at call sites (e.g. "the API caller passes non-nil options")
+			if cur == nil {
+				return perr(fmt.Errorf("clause outside contract"))
+			}
+			cl, err := parseClause(rest, where)
+			if err != nil {
+				return perr(err)
+			}
+			cur.Assumes = append(cur.Assumes, cl)
 		case "requires", "ensures", "panics":
 			if cur == nil {
 				return perr(fmt.Errorf("clause outside contract"))
